@@ -3,6 +3,7 @@
 import hashlib
 import inspect
 from collections.abc import Callable
+from typing import Any
 
 
 def ensure_tuple(value: str | tuple[str, ...]) -> tuple[str, ...]:
@@ -23,6 +24,23 @@ def ensure_tuple(value: str | tuple[str, ...]) -> tuple[str, ...]:
     if isinstance(value, str):
         return (value,)
     return value
+
+
+def _update_hash_with_code(h: Any, code: Any) -> None:
+    """Feed a code object into a hash: instructions, the names they index, constants.
+
+    The instructions refer to globals, attributes, locals and free variables by
+    index only, so the name tuples are part of the definition. Nested code objects
+    (lambdas, inner functions, comprehensions) are hashed recursively.
+    """
+    h.update(code.co_code)
+    h.update(repr((code.co_names, code.co_varnames, code.co_freevars, code.co_cellvars)).encode())
+    for const in code.co_consts:
+        if hasattr(const, "co_code"):
+            h.update(const.co_name.encode())
+            _update_hash_with_code(h, const)
+        else:
+            h.update(repr(const).encode())
 
 
 def hash_definition(func: Callable) -> str:
@@ -54,11 +72,7 @@ def hash_definition(func: Callable) -> str:
     code = getattr(func, "__code__", None)
     if code is not None:
         h = hashlib.sha256()
-        h.update(code.co_code)
-
-        # Serialize co_consts deterministically (replace nested code objects with names)
-        consts_serialized = tuple(c if not hasattr(c, "co_name") else c.co_name for c in code.co_consts)
-        h.update(repr(consts_serialized).encode())
+        _update_hash_with_code(h, code)
 
         # Include function defaults to distinguish f(x=1) from f(x=2)
         h.update(repr(getattr(func, "__defaults__", None)).encode())
